@@ -111,3 +111,5 @@ Lemma gval_eqb_refl a : gval_eqb a a = true.
 Proof. destruct (gval_eqb_spec a a); congruence. Qed.
 Lemma gval_eqb_sym a b : gval_eqb a b = gval_eqb b a.
 Proof. destruct (gval_eqb_spec a b), (gval_eqb_spec b a); congruence. Qed.
+
+(* EXTRACT: rel_sat in_sortb gval_dec *)
